@@ -226,7 +226,15 @@ func loadFindings(root string) []Finding {
 // ---------------------------------------------------------------------------------
 // Orchestration
 
-const Root = "/verif"
+// Root is the verification directory (KMC_ROOT, set by ./check; default /verif).
+var Root = rootDir()
+
+func rootDir() string {
+	if r := os.Getenv("KMC_ROOT"); r != "" {
+		return r
+	}
+	return "/verif"
+}
 
 // Main is the entry point of the kmc binary.
 func Main(args []string) int {
